@@ -34,6 +34,8 @@ ROWS = [
     P("VecZeroS", "Vec<ZeroS>", 4, 4, borrows=True, quick=True), P("VecZTail", "Vec<ZTail>", 4, 4, borrows=True),
     P("VecZAl32", "Vec<ZAl32>", 32, 3, cap=128, borrows=True), P("VecZUnit", "Vec<ZUnit>", 1, 4, borrows=True),
     P("VecZE", "Vec<ZE>", 8, 3, borrows=True), P("VecRangeTo", "Vec<RangeTo<u32>>", 4, 4, borrows=True),
+    P("VecRangeToArr3", "Vec<RangeTo<[u8;3]>>", 4, 6, borrows=True, quick=True, note="element size 3: not a power of two"),
+    P("VecRangeToUnit", "Vec<RangeTo<()>>", 1, 4, borrows=True, note="zero-sized range"),
     P("BoxU32", "Box<[u32]>", 4, 5, borrows=True, quick=True),
     P("Str", "String", 1, 10, borrows=True, quick=True, note="<= 2 chars, every code point, 8 width-class shapes", shapes=8, qshapes=[0, 1, 4, 6]),
     P("BoxStr", "Box<str>", 1, 10, borrows=True, shapes=8, qshapes=[5]),
